@@ -411,6 +411,7 @@ func TestCheck(t *testing.T) {
 		}
 		c.End()
 	}
+	r.Finish()
 }
 
 // ---- generators -----------------------------------------------------------
